@@ -133,29 +133,38 @@ def w_image(pid, tier, seed, job):
                 ghost = AW.SampleFile(name="GH0ST%d" % g, type_byte=rng.choice([0x00, 0xF8, 0x74, 0x64, 0x78]), raw_body=bytes(rng.randrange(256) for _ in range(40)))
                 files.insert(rng.randint(1, len(files)), ghost)
         vols.append(AW.Volume("V%d" % vi, files))
+    # two volumes with the SAME stored name (exported as NAME and NAME (2)): pairing is per directory - an L here and its R there stay apart
+    twin = rng.random() < 0.5
+    if twin:
+        la = [AW.SampleFile(name=n, pcm=struct.pack("<4h", 7000 + i, 1, 2, 3)) for i, n in enumerate(["KICK -L", "SNARE", "TOM L", "TOM R"])]
+        lb = [AW.SampleFile(name=n, pcm=struct.pack("<4h", 8000 + i, 1, 2, 3)) for i, n in enumerate(["KICK -R", "SNARE", "HAT"])]
+        vols += [AW.Volume("DRUMS", la), AW.Volume("DRUMS", lb)]
     img = AW.image_bytes([AW.Partition(vols, size_sectors=64)])
     with R.TempImage(img) as path:
         r, tree, reported = R.export(path)
+        seen_dirs = {}
         for v in vols:
+            seen_dirs[v.name] = seen_dirs.get(v.name, 0) + 1
+            vdir = v.name if seen_dirs[v.name] == 1 else "%s (%d)" % (v.name, seen_dirs[v.name])
             smp = [f for f in v.files if f.is_sample]
             disp = [AW.displayed_name(f.name) for f in smp]
             en = C6.impl_export_names(disp)
-            case = {"volume": v.name, "names": disp, "export_names": en, "seed": job}
+            case = {"volume": vdir, "names": disp, "export_names": en, "seed": job}
             ctx.count("image_pairing", (tuple(disp),), nontrivial=True)
             if r.exc is not None:
                 ctx.require("export finishes without exception", case, False, r.exc_name)
                 continue
-            mine = {p: b for p, b in tree.items() if p.startswith("A/%s/" % v.name)}
+            mine = {p: b for p, b in tree.items() if p.startswith("A/%s/" % vdir)}
             if NC.d6_shape(en):
                 ctx.require("number of files on disk equals number of Exported lines (no two samples to one path)",
-                            dict(case, d6_shape=True), len(mine) == len([p for p in reported if p.startswith("A/%s/" % v.name)]), sorted(mine))
+                            dict(case, d6_shape=True), len(mine) == len([p for p in reported if p.startswith("A/%s/" % vdir)]), sorted(mine))
                 continue
             exp = NC.expected_pairs(en)
             ctx.require("one file per single sample and per L/R pair, nothing else", case,
-                        sorted(mine) == sorted("A/%s/%s.wav" % (v.name, nm) for nm, _ in exp), {"files": sorted(mine), "expected": exp})
+                        sorted(mine) == sorted("A/%s/%s.wav" % (vdir, nm) for nm, _ in exp), {"files": sorted(mine), "expected": exp})
             total_ch = 0
             for nm, src in exp:
-                b = mine.get("A/%s/%s.wav" % (v.name, nm))
+                b = mine.get("A/%s/%s.wav" % (vdir, nm))
                 if b is None:
                     continue
                 w = R.parse_wav(b)
